@@ -514,3 +514,64 @@ def engine_view(facts):
     _CACHE.clear()
     _CACHE[key] = (facts, view)
     return view
+
+
+INT_TYPES = ("usize", "u8", "u16", "u32", "u64", "isize", "i32", "i64", "bool")
+
+
+def _int_only(t):
+    t = (t or "").strip()
+    if t in INT_TYPES:
+        return True
+    if t.startswith("(") and t.endswith(")"):
+        inner = t[1:-1]
+        return all(_int_only(x) for x in inner.split(",") if x.strip())
+    return False
+
+
+def int_helper_policy(facts, cb):
+    """a crate-local function from integers to integers without loops or side effects: index arithmetic given a name"""
+    if cb is None or cb["kind"] not in ("Fn", "AssocFn") or cb.get("impl_trait_def"):
+        return False
+    if not cb.get("inputs") or not all(_int_only(t) for t in cb["inputs"]) or not _int_only(cb.get("output")):
+        return False
+    root = facts.root(cb)
+    if root is None:
+        return False
+    size = 0
+    for n in walk(root):
+        size += 1
+        if n.get("k") in ("Loop", "Assign", "AssignOp", "Closure", "Return") or (n.get("k") == "Match" and str(n.get("source", "")).startswith("ForLoopDesugar")):
+            return False
+        if n.get("k") == "Call" and resolved(n) == cb["def"]:
+            return False
+    return size <= 300
+
+
+_KCACHE = {}
+
+
+def kernel_view(facts):
+    """Facts view in which calls of pure integer helper functions are inlined everywhere (functions and closures): index arithmetic that was
+    given a name reads like the expression it stands for"""
+    if isinstance(facts, ViewFacts):
+        return facts
+    key = id(facts)
+    if key in _KCACHE and _KCACHE[key][0] is facts:
+        return _KCACHE[key][1]
+    helpers = [b for b in facts.fns() if int_helper_policy(facts, b)]
+    if not helpers:
+        _KCACHE.clear()
+        _KCACHE[key] = (facts, facts)
+        return facts
+    hdefs = {b["def"] for b in helpers}
+    view = ViewFacts(facts)
+    for b in facts.bodies:
+        root = facts.root(b)
+        if root is None or b["def"] in hdefs:
+            continue
+        if any(n.get("k") == "Call" and resolved(n) in hdefs for n in walk(root)):
+            inline_body(view, b, policy=int_helper_policy)
+    _KCACHE.clear()
+    _KCACHE[key] = (facts, view)
+    return view
